@@ -189,3 +189,20 @@ LEVEL_TEXT.update({
     'C16': 'Theorems about a Gallina model of the three-phase parser, the printer and the order, over named hypotheses on the std oracles (float / integer text conversion, Unicode numeric class) that the harness validates on every run (exhaustively over all non-negative f32 in the thorough tier); tied to the real GameVersion exhaustively over a class alphabet, on known versions, random strings and random triples for the order.',
 })
 NOT_APPLICABLE.pop('C16', None)
+
+ADAPTOR_MODELLED = ['the buffering transport adaptors (blocking + tokio UdpStream, WebsocketStream) are ONE hand-written model (Net/Adaptor.v: pull the next datagram / binary message into the adaptor buffer, serve the caller\'s slice from it; non-binary messages skipped; end of stream = 0 bytes), composed in Coq with the Framed session model of C05 (Net/AdaptorSession.v)',
+                    'tied to the real adaptors by differential runs: the adaptor\'s own Read/AsyncRead is driven with scripted slice sizes over real loopback sockets and its chunk sequence compared with the model\'s, and whole Framed sessions are compared with the model\'s session trace']
+PROPS.update({
+    'C08': dict(gens=['consts'], coq_targets=['Props/C08.vo'], coqchk_modules=['Props.C08'], group='net', harness='c08', axioms_allowed=[],
+        proved=['session theorem over the adaptor: for every packet layer, mode, sequence of datagrams each holding >= 1 complete frames and fitting the scratch array, and EVERY sequence of slice sizes offered by the connection (i.e. whatever its receive buffer\'s spare capacity after any amount of traffic), the results are exactly one per frame, in order, then Disconnected (induction over the slice sizes + the C05 induction; unbounded)',
+                'the adaptor alone never loses, duplicates or reorders a byte (delivered ++ buffered ++ pending = payload, invariant for all slice sizes) and is drained by enough reads',
+                'the scratch arrays regenerated from both udp.rs hold a 1020-byte datagram; receiving straight into a smaller slice is refuted with a witness (the defect fixed by ca34db9)',
+                'a write hands the whole frame to the socket in one call: one datagram = one frame, write_all finishes at once'],
+        modelled=NET_MODELLED + ADAPTOR_MODELLED + ['the scratch array sizes are REGENERATED from blocking_impl/udp.rs and tokio_impl/udp.rs when the `let mut x = [0u8; N]` shape is recognised (otherwise only the 1020-byte datagrams of the correspondence runs cover truncation)'],
+        assumptions=NET_ASSUME + ['kernel socket buffers, datagram loss / reordering by the OS are outside the model (loopback with flow control in the harness: at most 100 datagrams / 40 KB unread)',
+                                  'UdpSocket::recv into a buffer smaller than the datagram discards the rest (datagram semantics; modelled by firstn)']),
+})
+LEVEL_TEXT.update({
+    'C08': 'Composition theorem in Coq (adaptor invariant by induction over the slice sizes + the C05 session induction): every datagram sequence, every slice-size sequence, unbounded sessions, both modes; one model for both adaptors, tied to the real blocking and tokio UdpStream over loopback sockets at adaptor level (scripted slice sizes incl. the 120-byte slices that exposed the original defect) and at session level (up to 900 frames / > 60 KB per session).',
+})
+NOT_APPLICABLE.pop('C08', None)
